@@ -9,7 +9,7 @@ TECHNIQUE = 'exhaustive insertion of every layout-noise element at every token b
 ASSUMPTIONS = ['token model: a predicate name sticks to its "(" (documented), dotted names, `..rest`, a negative number literal and `field?` are single tokens; keyword operators are the words in, is, is not, combine, else if, import, as',
                'noise is inserted additively (existing separators are kept)']
 
-NOISE = [' ', '  ', '\n', '\t', '# c\n', '/* c */', '/* ; ( " */', ' /* :- | */ ']
+NOISE = [' ', '  ', '\n', '\t', '# c\n', '/* c */', '/* ; ( " */', ' /* :- | */ ', '/*/ c */', '/*//// b ////*/', '/**/', '/* * / */']
 EVIL = [';', ',', ':-', '|', '(', ')', ']', '[', '{', '}', '#', '/*', '*/', '/* x */', ' in ', 'distinct', 'else', ' is ', '==', '~', ':=', '-->', 'import a.B', '# c', 'T(x) :- A(x);', "it's", '`', '..', '?', '=>',
         'combine', 'then', '->', '&&', '||', '@Ground(T)', '$', '%s', '{0}', ' ; ; ', '\\', 'a\\', '\\(', '\\)', 'C:\\d\\', '\\n']
 
